@@ -130,8 +130,9 @@ func H_C08_funnels() {
 		oServerErr
 		oRefused
 		oNoRows
+		oCursorBroke
 	)
-	outcome := verifnd.Choose("outcome", 6)
+	outcome := verifnd.Choose("outcome", 7)
 	lockTimeoutFails := verifnd.Choose("lock-timeout-statement.fails", 2) == 1
 	var seen []string
 	verifInner = func(n *Node, kind, queryName string, arg any, result any) error {
@@ -154,6 +155,11 @@ func H_C08_funnels() {
 		case oNoRows:
 			if kind == "query" {
 				return sql.ErrNoRows
+			}
+			return nil
+		case oCursorBroke:
+			if kind == "query" {
+				return &verifRowsError{ErrVerifRefused}
 			}
 			return nil
 		}
@@ -214,6 +220,14 @@ func H_C08_funnels() {
 		verifnd.Assert(err != nil && errors.As(err, &me) && me.Number == 1064, "funnel.server-error-recognisable")
 	case oRefused:
 		verifnd.Assert(err != nil && errors.Is(err, ErrVerifRefused), "funnel.connection-error-returned")
+	case oCursorBroke:
+		if isExec {
+			verifnd.Assert(err == nil, "funnel.ok-is-nil")
+		} else {
+			// a result set that breaks before the first row is an error, not an empty result
+			verifnd.Assert(err != nil && err != sql.ErrNoRows && errors.Is(err, ErrVerifRefused), "funnel.broken-cursor-is-an-error")
+			verifnd.Reach("C08.funnel.cursor-broke")
+		}
 	case oNoRows:
 		if isExec {
 			verifnd.Assert(err == nil, "funnel.ok-is-nil")
